@@ -24,11 +24,13 @@ CLAIMED = {
          'injectivity of repr/pickle/digest on the value universe is assumed (DESIGN 7); typed separation of ==-equal values is decided by the suite (the model interns objects up to (type, repr))', '5 C10'),
  'C11': ('Klepto.C11: for ANY ignore plan (any callable kind, any ignore specification) calls that agree outside the hidden positions/names have the same _keygen result; unselected positionals and named parameters keep their values in the key; ' + KS,
          'ignore=** hides more than the property allows (keyword-only parameters): listed finding F14', '5 C11'),
+ 'C12': ('Klepto.C12: deep_round = mapFloats on rebuildable arguments (mutual induction over nested values), shape (all non-float data) preserved, simple_round = top-level map and total, tol=None identity, merge-iff under an injective keymap; suite `round`: (a) CPython round vs the exact Lean pyRound bit-for-bit, (b) simple_round/deep_round on generated nested structures vs the Lean model and vs an oracle written from the property text, (c) the 12 cache decorators: key equality <-> oracle-rounded equality, originals reach the function (is), valid calls do not fail, key() is the stored slot',
+         'round() itself is a runtime fact (modelled exactly by pyRound and cross-checked every run); range-like iterables make deep_round raise (F16b, listed); a default that is left implicit is not rounded (noted in DESIGN)', '5 C12'),
  'C15': ('Klepto.C15: counters move by exactly the classified event on every path; ghost-account theorem over all histories; completed iff counted; info/clear; ' + W,
          'mru IndexError (F2) excluded from completed-iff-counted', '5 C15'),
  'C16': ('Klepto.C16: a raising miss is literally a no-op with one evaluation; safe key failures evaluate once and return; single evaluation always; ' + W,
          'the Python handler structure (exception in an except-handler is not caught by a sibling bare except) is encoded in the model and checked by correspondence', '5 C16'),
- 'C18': ('Klepto.C18: lookup is pure and returns the resident value or KeyError; lookups invisible to later behaviour; key is the slot of the call (thin: one key function in the model); ' + W + ' incl. f.key()/f.lookup() interleavings invisible to the model',
+ 'C18': ('Klepto.C18: lookup is pure and returns the resident value or KeyError; lookups invisible to later behaviour; key is the slot of the call (thin: one key function in the model); ' + W + ' incl. f.key()/f.lookup() interleavings invisible to the model; suite `round`: key(args) is the slot of the call under tol/deep for all 12 decorators',
          'the 36 duplicated key sites are compared behaviourally (f.key vs. key stored by the call), not proved equal', '5 C18'),
  'C19': ('Klepto.C19: validate (model of the code) succeeds exactly when CPython binding (bind, the specification) succeeds, for every plain signature without keyword-only parameters (any params, defaults, *args, **kw) and every call; validate has no access to the function; ' + KS + '; isvalid/validate verdicts vs. really binding the underlying function, and a call counter inside every generated function',
          'outside the proved fragment the code disagrees with the specification: keyword-only parameters (F17a), partials fixing defaulted parameters positionally (F17b), partials over bound methods (F30) - listed findings with Lean counter-examples', '5 C19'),
